@@ -10,7 +10,7 @@ use serde_json::Value;
 
 pub const META: PropMeta = PropMeta {
     level: "exploration",
-    rule: "for each of the 46 box kinds in mp4box/ (leaf boxes, descriptors and every container) a proptest strategy draws a value inside the wire-format domain (DESIGN Appendix A: version 0/1, every subset of the flag bits that gate optional fields, optional children present/absent, list lengths 0..L, field values within wire width and mostly non-zero/distinct). Forward: write_box returns Ok(n), n == box_size() == bytes written, header = (n, own four-character code from an independent table), and decoding - alone, followed by two sibling boxes, followed by garbage - yields an equal value and leaves the stream exactly at n. Converse: byte-mutated encodings (1..3 payload bytes replaced, size kept) and reference encodings (compact, 64-bit header, spare bytes): if decode(b)=Ok(v1) and encode(v1)=Ok(b2) then decode(b2)=Ok(v2), v2==v1, position exact, encode(v2)==b2 (ilst with >= 2 items: compared by value, item order is a HashMap's). Non-trivial = the shape has an optional part present / a non-empty list / version 1 (see Spec::nontrivial_shape); distinct = hash of (kind, value). The class histogram lists every (kind, shape) reached.",
+    rule: "for each of the 46 box kinds in mp4box/ (leaf boxes, descriptors and every container) a proptest strategy draws a value inside the wire-format domain (DESIGN Appendix A: version 0/1, every subset of the flag bits that gate optional fields, optional children present/absent, list lengths 0..L, field values within wire width and mostly non-zero/distinct). One case in five encodes into a legal sink that accepts at most 1..13 bytes per write call. Strings include non-ASCII UTF-8, 60..300 character strings and counted-string lookalikes. Forward: write_box returns Ok(n), n == box_size() == bytes written, header = (n, own four-character code from an independent table), and decoding - alone, followed by two sibling boxes, followed by garbage - yields an equal value and leaves the stream exactly at n. Converse: byte-mutated encodings (1..3 payload bytes replaced, size kept) and reference encodings (compact, 64-bit header, spare bytes): if decode(b)=Ok(v1) and encode(v1)=Ok(b2) then decode(b2)=Ok(v2), v2==v1, position exact, encode(v2)==b2 (ilst with >= 2 items: compared by value, item order is a HashMap's). Non-trivial = the shape has an optional part present / a non-empty list / version 1 (see Spec::nontrivial_shape); distinct = hash of (kind, value). The class histogram lists every (kind, shape) reached.",
     assumptions: &["'representable' is defined per box in DESIGN Appendix A; dinf/dref/url values can only be obtained by decoding (private field), so their forward direction starts from the reference encoding"],
 };
 
@@ -30,6 +30,20 @@ pub fn tails() -> Vec<Vec<u8>> {
 }
 
 pub fn oracle(ctx: &mut Ctx, c: &Case) -> Check {
+    // one case in five encodes into a sink that takes at most 1..=13 bytes per write call
+    // (a legal std::io::Write); which ones is a function of the case alone
+    let h = crate::engine::fp_of(&c.spec) ^ ((c.mode as u64) << 56);
+    let lim = if h % 5 == 0 { 1 + ((h >> 8) % 13) as usize } else { 0 };
+    libbox::ENC_SINK_LIMIT.with(|l| l.set(lim));
+    if lim != 0 {
+        ctx.count("sink:short-writes");
+    }
+    let r = oracle_inner(ctx, c);
+    libbox::ENC_SINK_LIMIT.with(|l| l.set(0));
+    r
+}
+
+fn oracle_inner(ctx: &mut Ctx, c: &Case) -> Check {
     let kind = c.spec.kind();
     let node = c.spec.node();
     let reference = node.render();
